@@ -69,8 +69,9 @@ def decPrim (cfg : DecCfg) : PrimTy → TLV → Res Val
   | .oid, .prim _ _ c => (oidFromContent c).map .oid
   | .real, .prim _ _ c => (realFromContent c).map .real
   | .bitString, .prim _ _ c => (bitsFromContent c).map .bits
-  | .bitString, .cons _ _ _ cs =>
-    if cfg.consBits then
+  | .bitString, .cons _ _ indef cs =>
+    if !indef && cs.isEmpty then .error .malformed      -- 'Empty BIT STRING substrate' (23 00)
+    else if cfg.consBits then
       (match decBitSegments cs with
        | .error e => .error e
        | .ok frags => (concatBitFrags frags).map .bits)
@@ -118,7 +119,9 @@ def decTy (cfg : DecCfg) : Ty → TLV → Res Val
   | .tagged false cls num t, tlv =>
     if tlv.tag.cls = cls ∧ tlv.tag.num = num then decBody cfg t tlv else .error .malformed
   | .choice fs, tlv => decAlt cfg fs 0 tlv
-  | .any, tlv => .ok (.any tlv.ser)
+  | .any, tlv =>
+    -- the end-of-octets tag is in ANY's skip list (`Any.tagMap` skipTypes)
+    if tlv.tag.cls = .universal ∧ tlv.tag.num = 0 then .error .malformed else .ok (.any tlv.ser)
   | .prim p, tlv =>
     if tlv.tag.cls = .universal ∧ tlv.tag.num = p.univNum then decPrim cfg p tlv
     else .error .malformed
